@@ -5,7 +5,7 @@ cd "$(dirname "$0")"
 export GOFLAGS=-mod=mod GOPROXY=off GOSUMDB=off GOTOOLCHAIN=local
 mkdir -p .build evidence replays
 (cd extract && go build -o ../.build/extract .)
-.build/extract /repo .build/Facts.lean.new .build/facts.json
+.build/extract ${VERIF_REPO:-/repo} .build/Facts.lean.new .build/facts.json
 mkdir -p lean/Ps3/Gen
 cmp -s .build/Facts.lean.new lean/Ps3/Gen/Facts.lean || cp .build/Facts.lean.new lean/Ps3/Gen/Facts.lean
 (cd lean && lake build Ps3 Driver vmodel)
